@@ -162,7 +162,11 @@ def run(tier, seed):
                    {"kind": "convert", "input": "あ", "context": "Normal"}, {"kind": "convert", "input": "おおきい", "context": "Normal"}, {"kind": "convert", "input": "くるまで", "context": "Normal"}])
     wide_base = {"std": [{"reading": "き", "stem": chr(0x4E00 + 7 * i), "speech": {"Noun": "Common"}} for i in range(120)], "anc": [], "tankan": []}
     wide = [{"kind": "convert", "input": "き" + "ぬ" * 60, "context": c} for c in ("Normal", "ForeignWord")] + [{"kind": "proper", "input": "き" + "ぬ" * 60}, {"kind": "convert", "input": "き", "context": "Normal"}]
-    items = [(fixed_base, c) for c in corpus] + [(wide_base, wide)] + items
+    # one client that stays connected (the Emacs client keeps ONE WebSocket for the whole session): 300 requests on the same connection
+    long_ws = []
+    for i in range(100):
+        long_ws += [{"kind": "convert", "input": "くるまで", "context": "Normal"}, {"kind": "confirm", "session": i, "cid": "0"}, {"kind": "tankan", "input": "く"}]
+    items = [(fixed_base, c) for c in corpus] + [(wide_base, wide), (dict(fixed_base, transport="ws"), long_ws + [{"kind": "restart"}, {"kind": "convert", "input": "くるまで", "context": "Normal"}])] + items
     runs = run_histories(items, threads=12)
     nontrivial = sum(1 for hr in runs if predicate(res, hr))
     n_model = model_histories(res, PROP, runs)
